@@ -678,7 +678,7 @@ class Interp:
                 if len(letters) == 1: g2[letters[0]] = m.group(1).strip()
             # async body poll inherits generics of the constructor call stored in the coroutine object
             if 'async fn body of' in callee_r:
-                mm = re.search(r'async fn body of .*?<(.+)>\(\)', callee_r)
+                mm = re.search(r'async fn body of [\w:]+<([^<>]+(?:<[^<>]*>)?)>::\w+', callee_r) or re.search(r'async fn body of .*?<(.+)>\(\)', callee_r)
                 if mm and re.search(r'\bT\b', fn.args + fn.ret): g2['T'] = mm.group(1)
             self.push_call(st, fn, args, dest, ret_bb, generics=g2)
             return [st]
